@@ -11,6 +11,17 @@ TB = ("Trusted: Lean 4.33 kernel; axioms of every property theorem printed per r
       "lxml/libxml2 and CPython are modelled, not verified. ")
 
 CLAIMED = {
+    "C17": dict(
+        text="Proof: the recursion of compare_trees (class test, namespace, local name, TagAttributes.__eq__, len, zip of "
+             "filtered children, leaf __eq__) is modelled in Lean (Model/Compare.lean) and proved, for all trees and all "
+             "filter predicates, to answer 'equal' iff the visible trees are structurally equal (attributes as dictionaries), "
+             "to be symmetric and reflexive in its verdict, and to report a pair at equal addresses that really differs in the "
+             "reported aspect. Tie to code: the real compare_trees on (tree, point-mutated copy) pairs, both argument orders, "
+             "six ambient filter settings vs the compiled model (verdict, difference kind, address).",
+        note=TB + "Ambient filters are modelled as predicates on the node kind; attribute keys are unique per node (mapping).",
+        technique="Lean 4 theorems (mutual induction over nested trees) + differential correspondence impl vs Lean model",
+        design="3/C17",
+    ),
     "C07": dict(
         text="Proof: the four-rule table of _reduce_whitespace_content and the traversal of "
              "_reduce_whitespace_of_descendants are modelled in Lean (Model/Whitespace.lean) next to a declarative "
